@@ -154,6 +154,14 @@ class Contract(object):
         self.native_checks_.append(fn)
         return self
 
+    def effect(self, fn):
+        """fn(path, locals): native hook run when this contract is applied at a call site (before
+        any outcome is chosen); used to record ghost events such as ('access', op, uid)."""
+        if not hasattr(self, 'effects_'):
+            self.effects_ = []
+        self.effects_.append(fn)
+        return self
+
     def use_variant(self, name):
         """While proving this contract, callees that have a variant of this name are
         used through that variant (whose preconditions are then proved at the call)."""
